@@ -3,9 +3,10 @@
    (and Proofs/VerificatorBase.v).  Spec = Spec/VerificatorSpec.v: a total map
    request id -> status, and the transition table of the class documentation. *)
 From Coq Require Import ZArith List Bool.
+From SP Require Model.ReqId Model.Srv1.
 From SP Require Import Base.Result Base.Bytes Model.SpacePacket Model.Verificator
   Spec.SpacePacketSpec Spec.VerificatorSpec Proofs.VerificatorBase Proofs.VerificatorProofs
-  Proofs.VerificatorKept.
+  Proofs.VerificatorKept Proofs.VerificatorSrv1.
 Import ListNotations.
 Open Scope Z_scope.
 
@@ -128,6 +129,86 @@ Theorem C16_add_tm_errors_documented : forall d r e,
   snd (add_tm d r) = Err e -> e = EValue /\ ~ (1 <= rep_sub r <= 8) /\ fst (add_tm d r) = d.
 Proof. exact add_tm_errors_documented. Qed.
 Print Assumptions C16_add_tm_errors_documented.
+
+(* ---- the exception class of every raising transition (abs_out maps every raise to the
+   specification's single error output): a call raises only in add_tm for a REGISTERED
+   telecommand, and then ValueError for a subservice outside 1..8 (dictionary unchanged), or
+   AttributeError for a step report without step id (excluded by op_in_spec; the status object has
+   been mutated as far as the code got) ---- *)
+Theorem C16_raise_class : forall d o e,
+  snd (vstep d o) = ORaise e ->
+  exists r s, o = AddTm r /\ lookup (reqid_as_u32 (rep_id r)) d = Some s /\
+    ((e = EValue /\ ~ (1 <= rep_sub r <= 8) /\ fst (vstep d o) = d) \/
+     (e = EAttribute /\ (rep_sub r = 5 \/ rep_sub r = 6) /\ rep_step r = None /\
+      fst (vstep d o) = replace (reqid_as_u32 (rep_id r)) (fst (check_subservice r s)) d)).
+Proof. exact vstep_raise_class. Qed.
+Print Assumptions C16_raise_class.
+
+(* ---- link to C15: the reports the tracker is fed are Service1Tm objects.
+   report_of s = (tc_req_id, subservice, step_id.val if there is a step id): what add_tm reads.
+   Every object returned by Service1Tm.unpack / from_tm, by the constructor with verification
+   parameters and hence by create_*_tm carries a step id when it is a step report (subservice
+   5 / 6): `op_in_spec` excludes nothing these entry points produce. ---- *)
+Theorem C16_report_key : forall r, reqid_as_u32 (reqid_of r) = ReqId.reqid_as_u32 r.
+Proof. exact reqid_of_key. Qed.
+Print Assumptions C16_report_key.
+Theorem C16_unpacked_report_in_spec : forall data cfg s,
+  Srv1.srv1_unpack data cfg = Ok s -> op_in_spec (AddTm (report_of s)).
+Proof. exact srv1_unpack_in_spec. Qed.
+Print Assumptions C16_unpacked_report_in_spec.
+Theorem C16_from_tm_report_in_spec : forall t cfg s,
+  Srv1.srv1_from_tm t cfg = Ok s -> op_in_spec (AddTm (report_of s)).
+Proof. exact srv1_from_tm_in_spec. Qed.
+Print Assumptions C16_from_tm_report_in_spec.
+Theorem C16_constructed_report_in_spec : forall apid k ts v sc ver ref dest s,
+  Srv1.srv1_new apid k ts (Some v) sc ver ref dest = Ok s -> op_in_spec (AddTm (report_of s)).
+Proof. exact srv1_new_in_spec. Qed.
+Print Assumptions C16_constructed_report_in_spec.
+Theorem C16_created_report_in_spec : forall k apid tc_hdr step fn ts s,
+  Srv1.srv1_create k apid tc_hdr step fn ts = Ok s -> op_in_spec (AddTm (report_of s)).
+Proof. exact srv1_create_in_spec. Qed.
+Print Assumptions C16_created_report_in_spec.
+
+(* the one way to a step report WITHOUT step id: the constructor called without verification
+   parameters (accepted).  Such an object cannot be packed and decoded again, is outside
+   op_in_spec, and add_tm raises AttributeError for it with the step field already set.  Same on
+   the implementation (replayed): Service1Tm(apid=5, subservice=TM_STEP_SUCCESS, timestamp=b"")
+   with tc_req_id set to a registered telecommand: add_tm -> AttributeError. *)
+Theorem C16_step_report_without_step_id :
+  let h := {| ver := 0; ptype := 1; shf := 1; apid := 5; sflags := 3; scount := 7; dlen := 0 |} in
+  exists s, Srv1.srv1_new 5 5 [] None 0 0 0 0 = Ok s /\
+    ~ op_in_spec (AddTm (report_of s)) /\
+    (do p <- Srv1.srv1_pack s; Srv1.srv1_unpack (fst p) {| Srv1.up_ts_len := 0; Srv1.up_step := 1; Srv1.up_err := 1 |})
+      = Err ETooShort /\
+    let r := {| rep_id := reqid_from_sp_header h; rep_sub := rep_sub (report_of s); rep_step := rep_step (report_of s) |} in
+    snd (add_tm (fst (add_tc [] h)) r) = Err EAttribute /\
+    map (fun e => step (snd e)) (fst (add_tm (fst (add_tc [] h)) r)) = [SUCCESS].
+Proof. exact step_report_without_step_id. Qed.
+Print Assumptions C16_step_report_without_step_id.
+
+(* ---- always_present (hypothesis of C16_failed_step_sticky / C16_all_recvd_monotone) holds for
+   every history without a removal of that telecommand ---- *)
+Theorem C16_always_present_no_removal : forall k ops d, uniq d -> Forall (never_removes k) ops ->
+  lookup k d <> None -> always_present k d ops.
+Proof. exact always_present_no_removal. Qed.
+Print Assumptions C16_always_present_no_removal.
+
+(* non-vacuity of the hypotheses of C16_tracker_refines / _failed_step_sticky /
+   _all_recvd_monotone: two telecommands interleaved, a failed step, then a successful step, a
+   duplicate registration, completion, reports for and removal of the other telecommand *)
+Example C16_refinement_hyps_nonvacuous :
+  let h1 := {| ver := 0; ptype := 1; shf := 1; apid := 5; sflags := 3; scount := 7; dlen := 0 |} in
+  let h2 := {| ver := 0; ptype := 1; shf := 1; apid := 5; sflags := 3; scount := 8; dlen := 0 |} in
+  let rp h sub st := AddTm {| rep_id := reqid_from_sp_header h; rep_sub := sub; rep_step := st |} in
+  let d0 := vfinal [] [AddTc h1; AddTc h2; rp h1 1 None; rp h1 3 None; rp h1 6 (Some 2)] in
+  let ops := [rp h2 1 None; rp h1 5 (Some 3); AddTc h1; rp h2 4 None; rp h1 7 None;
+              RemoveEntry (reqid_from_sp_header h2)] in
+  let k := key_of_hdr h1 in
+  uniq d0 /\ Forall op_in_spec ops /\ Forall (never_removes k) ops /\ always_present k d0 ops /\
+  (exists s, lookup k d0 = Some s /\ step s = FAILURE /\ recvd s = 1) /\
+  (exists s', lookup k (vfinal d0 ops) = Some s' /\ step s' = FAILURE /\ steps s' = [2; 3] /\ recvd s' = 1) /\
+  lookup (key_of_hdr h2) (vfinal d0 ops) = None.
+Proof. exact refinement_hyps_example. Qed.
 
 (* the dictionary key is the request id's 32-bit value: version | packet id | sequence control *)
 Theorem C16_key_of_hdr_arith : forall h, sph_valid h ->
